@@ -2,6 +2,7 @@ package harness
 
 import (
 	"context"
+	"database/sql"
 	"fmt"
 	"testing"
 	"time"
@@ -39,6 +40,37 @@ func c07dRun(rt *rapid.T) (verdict, inconcl string, nontrivial bool) {
 	chain.SetPointers(tip, tip, tip)
 	k := rapid.IntRange(0, len(eventBlocks)-1).Draw(rt, "faultedBlock")
 	target := eventBlocks[k]
+	// ... or the storage refuses the row of a block itself - any block, also one without events (the node records the last
+	// block of every range it has fetched)
+	onBlockRow := rapid.IntRange(0, 2).Draw(rt, "faultOnTheBlockRow") == 0
+	chunk := uint64(rapid.SampledFrom([]int{1, 3, 100}).Draw(rt, "chunk"))
+	var twinBlocks []uint64
+	if onBlockRow {
+		// what a node that meets no fault records for this chain and chunk size
+		var tw string
+		if twinBlocks, tw = c07dTwinBlocks(chain, chunk, tip); tw != "" {
+			return "", "twin: " + tw, false
+		}
+		target = uint64(rapid.IntRange(1, int(tip)).Draw(rt, "faultedBlockNumber"))
+		var eventless []uint64
+		for _, b := range twinBlocks {
+			isEv := false
+			for _, e := range eventBlocks {
+				isEv = isEv || e == b
+			}
+			if !isEv && b > 0 {
+				eventless = append(eventless, b)
+			}
+		}
+		if len(eventless) > 0 && rapid.IntRange(0, 3).Draw(rt, "faultOnAnEventlessRecordedBlock") != 0 {
+			target = rapid.SampledFrom(eventless).Draw(rt, "eventlessBlock")
+			c07dEventless++
+		}
+		k = 0
+		for k < len(eventBlocks)-1 && eventBlocks[k] < target {
+			k++
+		}
+	}
 	storePath, clean := tmpDB("c07d")
 	defer clean()
 	// create the schema, then install the fault
@@ -49,12 +81,19 @@ func c07dRun(rt *rapid.T) (verdict, inconcl string, nontrivial bool) {
 	_ = pre.VerifClose()
 	d := rawDB(storePath)
 	defer d.Close()
-	if _, err := d.Exec(fmt.Sprintf(`CREATE TRIGGER vf_drv BEFORE INSERT ON l1_info_root WHEN NEW.block_num = %d BEGIN SELECT RAISE(ABORT, 'verif injected storage fault'); END`, target)); err != nil {
+	what := "the tree root"
+	if onBlockRow {
+		what = "the block row"
+	}
+	trg := fmt.Sprintf(`CREATE TRIGGER vf_drv BEFORE INSERT ON l1_info_root WHEN NEW.block_num = %d BEGIN SELECT RAISE(ABORT, 'verif injected storage fault'); END`, target)
+	if onBlockRow {
+		trg = fmt.Sprintf(`CREATE TRIGGER vf_drv BEFORE INSERT ON block WHEN NEW.num = %d BEGIN SELECT RAISE(ABORT, 'verif injected storage fault'); END`, target)
+	}
+	if _, err := d.Exec(trg); err != nil {
 		return "", "trigger: " + err.Error(), false
 	}
 	ctx, cancel := context.WithCancel(context.Background())
 	defer cancel()
-	chunk := uint64(rapid.SampledFrom([]int{1, 3, 100}).Draw(rt, "chunk"))
 	s, err := l1infotreesync.New(ctx, storePath, c06GER, c06RM, chunk, aggkittypes.LatestBlock, noReorgs{}, chain, time.Millisecond, 0, time.Millisecond, -1,
 		l1infotreesync.FlagAllowWrongContractsAddrs, aggkittypes.FinalizedBlock, false)
 	if err != nil {
@@ -108,14 +147,79 @@ func c07dRun(rt *rapid.T) (verdict, inconcl string, nontrivial bool) {
 			last, lastMove = n, time.Now()
 		}
 		if time.Since(lastMove) > 10*time.Second {
-			return fmt.Sprintf("the storage refused the tree root of block %d for a moment; ten seconds after it was repaired the syncer still stands at block %d of %d (error of the last query: %v)", target, last, tip, err), "", true
+			return fmt.Sprintf("the storage refused %s of block %d for a moment; ten seconds after it was repaired the syncer still stands at block %d of %d (error of the last query: %v)", what, target, last, tip, err), "", true
 		}
 		time.Sleep(time.Millisecond)
 	}
 	if diff := c06Compare(s, c06Expected(chain, false)); diff != "" {
-		return fmt.Sprintf("the storage refused the tree root of block %d for a moment (chunk %d, %d later event blocks); after it was repaired the node reached the tip, but %s", target, chunk, len(eventBlocks)-1-k, diff), "", true
+		return fmt.Sprintf("the storage refused %s of block %d for a moment (chunk %d, %d later event blocks); after it was repaired the node reached the tip, but %s", what, target, chunk, len(eventBlocks)-1-k, diff), "", true
+	}
+	if onBlockRow {
+		got := c07dBlockRows(d)
+		if fmt.Sprint(got) != fmt.Sprint(twinBlocks) {
+			return fmt.Sprintf("the storage refused the row of block %d for a moment (chunk %d); after it was repaired the node reached the tip with block rows %v, a node that met no fault records %v", target, chunk, got, twinBlocks), "", true
+		}
+		c07dBlockRowFaults++
+		return "", "", true
 	}
 	return "", "", len(eventBlocks)-1-k >= 1
+}
+
+var c07dBlockRowFaults, c07dEventless int
+
+func c07dBlockRows(d interface {
+	Query(string, ...any) (*sql.Rows, error)
+}) []uint64 {
+	rows, err := d.Query(`SELECT num FROM block ORDER BY num`)
+	if err != nil {
+		panic(err)
+	}
+	defer rows.Close()
+	var out []uint64
+	for rows.Next() {
+		var n uint64
+		if err := rows.Scan(&n); err != nil {
+			panic(err)
+		}
+		out = append(out, n)
+	}
+	return out
+}
+
+// c07dTwinBlocks runs the same public syncer on the same chain without any fault and returns the block rows it ends with.
+func c07dTwinBlocks(chain *fakechain.Chain, chunk, tip uint64) ([]uint64, string) {
+	storePath, clean := tmpDB("c07dt")
+	defer clean()
+	ctx, cancel := context.WithCancel(context.Background())
+	s, err := l1infotreesync.New(ctx, storePath, c06GER, c06RM, chunk, aggkittypes.LatestBlock, noReorgs{}, chain, time.Millisecond, 0, time.Millisecond, -1,
+		l1infotreesync.FlagAllowWrongContractsAddrs, aggkittypes.FinalizedBlock, false)
+	if err != nil {
+		cancel()
+		return nil, "constructor: " + err.Error()
+	}
+	done := make(chan struct{})
+	go func() { s.Start(ctx); close(done) }()
+	stop := func() {
+		cancel()
+		select {
+		case <-done:
+		case <-time.After(10 * time.Second):
+		}
+	}
+	for dl := time.Now().Add(30 * time.Second); ; {
+		if n, err := s.GetLastProcessedBlock(bg); err == nil && n >= tip {
+			break
+		}
+		if time.Now().After(dl) {
+			stop()
+			return nil, "did not reach the tip within 30 s"
+		}
+		time.Sleep(time.Millisecond)
+	}
+	stop()
+	d := rawDB(storePath)
+	defer d.Close()
+	return c07dBlockRows(d), ""
 }
 
 var c07dBlocking int
@@ -137,6 +241,8 @@ func TestC07Driver(t *testing.T) {
 		rec.Case(nt, "driver")
 		rec.Class("driver_level_cases")
 		rec.Set("driver_level_cases_in_which_the_fault_was_holding_the_node_when_it_was_repaired", c07dBlocking)
+		rec.Set("driver_level_cases_with_the_fault_on_a_block_row_compared_with_a_fault_free_twin", c07dBlockRowFaults)
+		rec.Set("driver_level_cases_with_the_fault_on_the_row_of_an_eventless_block", c07dEventless)
 	})
 }
 
